@@ -223,10 +223,10 @@ const T_BEGIN: u32 = 49;
 const T_SKIP: u32 = 48;
 
 fn opcode(name: &str) -> u64 {
-    const NAMES: [&str; 46] = [
+    const NAMES: [&str; 49] = [
         "sp", "jn", "yd", "rd", "wr", "ur", "tr", "tw", "tu", "ul", "up", "tg", "dg", "du", "dw", "wu", "tq", "gv", "iv", "bp", "lk", "tl",
         "rn", "r3", "rb", "rr", "rg", "rq", "dins", "dget", "drem", "dlen", "dcon", "dalt", "dent", "dret", "dclr", "dit", "dref", "dmut",
-        "dtry", "sins", "srem", "scon", "slen", "lz",
+        "dtry", "sins", "srem", "scon", "slen", "lz", "drif", "drim", "dvw",
     ];
     NAMES.iter().position(|n| *n == name).map(|p| p as u64).unwrap_or(999)
 }
@@ -487,7 +487,8 @@ fn run_body(p: Arc<Prog>, objs: Arc<Vec<Obj>>, b: usize) -> u64 {
                 log_op(85, &[v as u64]);
             }
             // ---- DashMap ----
-            "dins" | "dget" | "drem" | "dlen" | "dcon" | "dalt" | "dent" | "dret" | "dclr" | "dit" | "dref" | "dmut" | "dtry" => {
+            "dins" | "dget" | "drem" | "dlen" | "dcon" | "dalt" | "dent" | "dret" | "dclr" | "dit" | "dref" | "dmut" | "dtry" | "drif" | "drim"
+            | "dvw" => {
                 let Some(Obj::Dm(m)) = objs_ref.get(o) else {
                     skip(1);
                     continue;
@@ -535,6 +536,39 @@ fn run_body(p: Arc<Prog>, objs: Arc<Vec<Obj>>, b: usize) -> u64 {
                     "dclr" => {
                         m.clear();
                         log_op(98, &[o as u64]);
+                    }
+                    "drif" => {
+                        let p = v;
+                        let (mut seen, mut called) = (0u64, false);
+                        let r = m.remove_if(&k, |_, x| {
+                            called = true;
+                            seen = *x;
+                            *x % 2 == p % 2
+                        });
+                        match r {
+                            Some((_, x)) => log_op(112, &[o as u64, k, p, 1, x]),
+                            None if called => log_op(112, &[o as u64, k, p, 0, seen]),
+                            None => log_op(112, &[o as u64, k, p, 2, 0]),
+                        }
+                    }
+                    "drim" => {
+                        let p = v;
+                        let (mut seen, mut called) = (0u64, false);
+                        let r = m.remove_if_mut(&k, |_, x| {
+                            called = true;
+                            *x = x.wrapping_add(1);
+                            seen = *x;
+                            *x % 2 == p % 2
+                        });
+                        match r {
+                            Some((_, x)) => log_op(113, &[o as u64, k, p, 1, x]),
+                            None if called => log_op(113, &[o as u64, k, p, 0, seen]),
+                            None => log_op(113, &[o as u64, k, p, 2, 0]),
+                        }
+                    }
+                    "dvw" => {
+                        let r = m.view(&k, |_, x| *x);
+                        log_op(114, &[o as u64, k, r.is_some() as u64, r.unwrap_or(0)]);
                     }
                     "dit" => {
                         let mut items: Vec<(u64, u64)> = m.iter().map(|r| (*r.key(), *r.value())).collect();
